@@ -305,6 +305,14 @@ def rand_cov(rng, d):
     return V
 
 
+def phys_cov(rng, d):
+    """random dyadic measurement covariance with det comfortably above (hbar/2)^d = 1 (the bosonic circuit refuses others)"""
+    while True:
+        V = rand_cov(rng, d)
+        if np.linalg.det(V) >= 1.05:
+            return V
+
+
 def circle_point(rng):
     """rational point on the unit circle and its angle"""
     t = Fraction(rng.randint(-6, 6), rng.randint(1, 6))
